@@ -23,7 +23,7 @@ EXTENDS Wire
 (***************************************************************************)
 PreValidationRejects ==
     {"multict", "connectver-noct-post", "connectq-post", "unknownpath", "restnoroute", "rest405",
-     "rpc-get-notnse", "rpc-put", "streamtype", "bidi-http1", "grpc-http1", "badtimeout",
+     "rpc-get-notnse", "rpc-get-idem", "rpc-put", "streamtype", "bidi-http1", "grpc-http1", "badtimeout",
      "contentencoding", "unknowncomp", "unknowncodec", "restonly-norule"}
 \* refused after validation succeeded: the error is rendered in the client's protocol
 PostValidationRejects == {"leading-undecodable", "leading-truncated", "noflusher"}
@@ -32,7 +32,7 @@ RejectStatus(rej) ==
     CASE rej \in {"multict", "connectver-noct-post", "connectq-post", "streamtype", "contentencoding",
                   "unknowncomp", "unknowncodec"} -> 415
       [] rej \in {"unknownpath", "restnoroute", "restonly-norule"} -> 404
-      [] rej \in {"rest405", "rpc-get-notnse", "rpc-put"} -> 405
+      [] rej \in {"rest405", "rpc-get-notnse", "rpc-get-idem", "rpc-put"} -> 405
       [] rej \in {"bidi-http1", "grpc-http1"} -> 505
       [] rej = "badtimeout" -> 400
       [] OTHER -> 500
@@ -48,7 +48,7 @@ Negotiate(scn) ==
         sc == SrvCodec(scn.cfg, sp, ClientCodec(scn.cl))
         sz == SrvComp(scn.cfg, scn.cl.comp)
         mi == MethodInfo(scn.cl.method)
-        clientGet == scn.cl.form = "connect_get" \/ (scn.cl.form = "rest" /\ mi.restget)
+        clientGet == ClientIsGet(scn)
         \* ... and the URL fits the configured maximum (getdelta "m1": limit one below the URL's length)
         useGet == sp = "connect" /\ mi.stream = "unary" /\ clientGet /\ mi.nse /\ Stable(sc) /\ scn.cl.getdelta # "m1"
         sform == CASE sp = "connect" -> (IF mi.stream # "unary" THEN "connect_stream"
